@@ -12,6 +12,7 @@ import (
 	"net/url"
 	"os"
 	"path/filepath"
+	"sync/atomic"
 	"time"
 
 	"github.com/fullstorydev/grpchan"
@@ -43,6 +44,7 @@ type Carrier struct {
 	// for HTTP carriers
 	URL       *url.URL
 	Transport *http.Transport
+	ReqCount  *atomic.Int64 // HTTP requests that reached the server
 	Inner     *inprocgrpc.Channel
 }
 
@@ -63,6 +65,10 @@ type carrierOpt struct {
 	// skipVerify: the TLS client does not verify the server's certificate chain (self-signed or pinned
 	// certificates): still a TLS connection
 	skipVerify bool
+	ipv6       bool // listen on the IPv6 loopback address (the base URL then holds an IPv6 literal)
+	// tlsConfigured: the client's *http.Transport carries a TLS configuration although the base URL is http://
+	// (one transport shared between https and http back ends)
+	tlsConfigured bool
 	// decorate registers the scripted service through grpchan.WithInterceptor with pass-through interceptors
 	decorate bool
 }
@@ -127,7 +133,7 @@ func NewHTTPServer(svc *Service, o carrierOpt) *Carrier {
 	if o.register != nil {
 		o.register(s)
 	}
-	return httpCarrier("http-server", svc, s, base, o.tls, o.unix, o.skipVerify)
+	return httpCarrier("http-server", svc, s, base, o.tls, o.unix, o.skipVerify, o.ipv6, o.tlsConfigured)
 }
 
 // NewHTTPMux: the bulk-registration helper on a ServeMux.
@@ -143,14 +149,27 @@ func NewHTTPMux(svc *Service, o carrierOpt) *Carrier {
 	}
 	mux := http.NewServeMux()
 	httpgrpc.HandleServices(mux.HandleFunc, base, reg, o.unaryInt, o.streamInt)
-	return httpCarrier("http-mux", svc, mux, base, o.tls, o.unix, o.skipVerify)
+	return httpCarrier("http-mux", svc, mux, base, o.tls, o.unix, o.skipVerify, o.ipv6, o.tlsConfigured)
 }
 
 func httpCarrier(name string, svc *Service, h http.Handler, base string, useTLS, unix bool, skipVerify ...bool) *Carrier {
 	var ts *httptest.Server
 	tr := newHTTPTransport()
-	ts = httptest.NewUnstartedServer(h)
+	reqCount := new(atomic.Int64)
+	ts = httptest.NewUnstartedServer(http.HandlerFunc(func(w http.ResponseWriter, r *http.Request) {
+		reqCount.Add(1)
+		h.ServeHTTP(w, r)
+	}))
 	ts.Config.ErrorLog = log.New(io.Discard, "", 0)
+	if len(skipVerify) > 1 && skipVerify[1] {
+		l, err := net.Listen("tcp6", "[::1]:0")
+		if err != nil {
+			return nil // no IPv6 loopback here
+		}
+		ts.Listener.Close()
+		ts.Listener = l
+		name += "-ipv6"
+	}
 	sockDir := ""
 	if unix {
 		d, err := os.MkdirTemp("", "vsock")
@@ -190,7 +209,11 @@ func httpCarrier(name string, svc *Service, h http.Handler, base string, useTLS,
 		u = &url.URL{Scheme: scheme, Host: "127.0.0.1"}
 	}
 	u.Path = base
-	c := &Carrier{Name: name, HTTP: true, Svc: svc, URL: u, Transport: tr}
+	if len(skipVerify) > 2 && skipVerify[2] && !useTLS {
+		tr.TLSClientConfig = &tls.Config{}
+		name += "-tlsconfigured"
+	}
+	c := &Carrier{Name: name, HTTP: true, Svc: svc, URL: u, Transport: tr, ReqCount: reqCount}
 	c.CC = &httpgrpc.Channel{Transport: tr, BaseURL: u}
 	c.close = append(c.close, func() {
 		tr.CloseIdleConnections()
